@@ -1,4 +1,5 @@
 #!/bin/bash
+export VERIF_EVIDENCE_DIR=${VERIF_EVIDENCE_DIR:-/var/tmp/evidence_scratch}  # exploratory run: do not touch /verif/evidence
 # usage: quiet_matrix.sh "<seeds>" [tier] [ids...] : run every check at the given seeds; report exit code, VIOLATION/HARNESS/NOTE lines, time
 cd /verif; SEEDS=${1:-"1 2 3 4 5"}; TIER=${2:-quick}; shift 2
 IDS=${@:-$(seq -f "C%02g" 1 30)}
